@@ -431,7 +431,6 @@ func (c *cprop) runTo(target ssa.Instruction) (bool, string) {
 	return false, "path too long"
 }
 
-
 // sliceEscapes: a made slice is used other than by element addressing, len/cap and as an operand of copy.
 func sliceEscapes(m *ssa.MakeSlice) bool {
 	for _, ref := range *m.Referrers() {
@@ -460,7 +459,6 @@ func sliceEscapes(m *ssa.MakeSlice) bool {
 	}
 	return false
 }
-
 
 // wholeArraySlice: arr[:] or arr[:len(arr)] of a local array (what `make([]T, k)` with a constant k compiles to).
 func wholeArraySlice(sl *ssa.Slice) (*ssa.Alloc, bool) {
